@@ -46,7 +46,7 @@ ASSUMPTIONS = [
 ]
 RULE = ("file pools of 2-14 files: 1-4 series x 1-4 images (stack kind: slices x time points) differing in UID / number / protocol / "
         "orientation (other plane, or a zero component shifted by 2e-4..1e-3 = beyond tolerance; jitter <= 3e-5 inside a series), plus "
-        "1-3 faulty files (garbage, text, empty, missing, truncated, pixel-less, and BIT ROT: a valid file with intact preamble/magic damaged "
+        "1-3 faulty files (garbage, text, empty, missing, truncated, pixel-less - also pixel-less with a malformed DS value, or under a user extractor that needs an image attribute, so that extraction WOULD raise: still skipped as non-image in both modes -, and BIT ROT: a valid file with intact preamble/magic damaged "
         "in the VR / length fields of element headers (dcmread raises) or in a data element so that dcmread succeeds lazily and the extractor raises, an open undefined-length sequence, a cut inside a header, a deflated transfer "
         "syntax - kept when pydicom.dcmread raises, exception class recorded in the kind); per pool 4-9 path lists: two shuffles without faults, each fault at first / last / random positions in warn "
         "mode, strict lists with the fault in the middle and as the FIRST path. Tolerance kind: orientation values 3e-5..2e-4 apart "
@@ -61,7 +61,7 @@ PIX = ('PixelData', 'FloatPixelData', 'DoubleFloatPixelData')
 CAND_ATTRS = PIX          # exactly the attributes is_image may probe (probing another one decodes it)
 DEFAULT_GROUP = ('SeriesInstanceUID', 'SeriesNumber', 'ProtocolName', 'ImageOrientationPatient')
 DEFAULT_CLOSE = ('ImageOrientationPatient',)
-FAULT_KINDS = ('garbage', 'trunc', 'text', 'empty', 'missing', 'nopix', 'bitrot', 'bitrot', 'bitrotx', 'bitrotx', 'bitroti')
+FAULT_KINDS = ('garbage', 'trunc', 'text', 'empty', 'missing', 'nopix', 'bitrot', 'bitrot', 'bitrotx', 'bitrotx', 'bitroti', 'nopixbad', 'nopixbad')
 MUST_RAISE = ('garbage', 'text', 'empty', 'missing', 'bitrot', 'bitrotx', 'bitroti')          # strict mode has to raise on these
 ERR_ENUM = ('EValue', 'EIndex', 'EKey', 'EType', 'EAttr', 'EIncongruent', 'ECollision', 'ENonImage', 'ECrash')
 
@@ -102,7 +102,9 @@ def _mk_ds(sp):
     ds.BitsAllocated, ds.BitsStored, ds.HighBit = 16, 12, 11
     ds.PixelRepresentation, ds.SamplesPerPixel = 0, 1
     ds.PhotometricInterpretation = 'MONOCHROME2'
-    if sp['kind'] != 'nopix':
+    if sp['kind'] == 'nopixbad':
+        ds.PatientWeight = '70.0'          # patched to a non-numeric text after writing
+    if sp['kind'] not in ('nopix', 'nopixbad'):
         ds.PixelData = (np.arange(rows * cols, dtype=np.uint16) + inst).tobytes()
     return ds
 
@@ -115,6 +117,16 @@ def _write_files(files, wd):
         k = sp['kind']
         if k in ('img', 'nopix'):
             _mk_ds(sp).save_as(p, enforce_file_format=True)
+        elif k == 'nopixbad':
+            # a data set without pixels whose DS element PatientWeight holds 'ab.c': it reads, but its elements cannot all
+            # be converted (the extractor raises on it) - still only a non-image data set
+            import io
+            buf = io.BytesIO()
+            _mk_ds(sp).save_as(buf, enforce_file_format=True)
+            raw = buf.getvalue()
+            pat = b'\x10\x00\x30\x10DS\x04\x0070.0'
+            assert raw.count(pat) == 1
+            open(p, 'wb').write(raw.replace(pat, b'\x10\x00\x30\x10DS\x04\x00ab.c'))
         elif k == 'trunc':
             q = p + '.full'
             _mk_ds(dict(sp, kind='img')).save_as(q, enforce_file_format=True)
@@ -339,6 +351,15 @@ def _read_one(path, keys, force):
         except Exception as e:           # the image test decodes the pixel data element: a read-level fault
             return {'fault': _errclass(e), 'exc': type(e).__name__, 'stage': 'image-test', 'fw': len(ws)}
         meta = {}
+        if not any(a in PIX for a in attrs):
+            # does the data set carry the malformed DS text the generator wrote?  (raw element, no conversion)
+            try:
+                it = ds.get_item((0x0010, 0x1030)) if (0x0010, 0x1030) in ds else None
+                v = getattr(it, 'value', None)
+                und = v in (b'ab.c', 'ab.c') or str(v) == 'ab.c'
+            except Exception:
+                und = False
+            return {'attrs': attrs, 'meta': meta, 'fw': len(ws), 'undecodable': und}
         if any(a in PIX for a in attrs):
             try:
                 m = default_extractor(ds)
@@ -355,8 +376,18 @@ def _adj_warn(ws, reads, order):
     return max(0, len(ws) - sum(reads[i].get('fw', 0) for i in order))
 
 
+def _needs_iop_extractor(dcm):
+    """a user supplied extractor that reads an image attribute directly (legitimate: the extractor is documented to be called
+    on image data sets only); same meta data as the default extractor"""
+    from dcmstack.extract import default_extractor
+    dcm.ImageOrientationPatient
+    return default_extractor(dcm)
+
+
 def _kw(case):
     kw = {}
+    if case.get('extractor') == 'needs-iop':
+        kw['extractor'] = _needs_iop_extractor
     if case.get('group_by') is not None:
         kw['group_by'] = tuple(case['group_by'])
     if case.get('close') is not None:
@@ -658,6 +689,8 @@ def _read_mismatch(case, sp, r):
         return None if is_fault else 'a missing path was read'
     if k == 'nopix':
         return None if (not is_fault and not has_pix) else 'a pixel-less data set was not read as one'
+    if k == 'nopixbad':
+        return None if (not is_fault and not has_pix and r.get('undecodable')) else 'a pixel-less data set with a malformed value was not read as one'
     if k in ('garbage', 'text', 'empty', 'bitrot', 'bitroti') and not force:
         return None if is_fault else 'a non-DICOM file was read without force'
     return 'an unreadable / truncated file was read as an image' if (has_pix and 'xfault' not in r) else None
@@ -972,7 +1005,7 @@ def _fault_files(rng, start, n, like):
     for j in range(n):
         k = rng.choice(FAULT_KINDS)
         sp = {'id': start + j, 'kind': k}
-        if k in ('trunc', 'nopix'):
+        if k in ('trunc', 'nopix', 'nopixbad'):
             sp.update({f: like[f] for f in ('uid', 'num', 'prot', 'iop')})
         if k == 'trunc':
             sp['cut'] = rng.choice([0.0, 0.1, 0.35, 0.5, 0.8, 0.99])
@@ -1045,6 +1078,11 @@ def _gen_mix(rng, custom=False):
             case['close'] = ct
     if rng.random() < 0.15:
         case['force'] = True              # parse_and_group(force=True): non-DICOM files become pixel-less data sets
+    if rng.random() < 0.2:
+        case['extractor'] = 'needs-iop'   # the extractor raises on data sets without ImageOrientationPatient
+        for f in case['files']:
+            if f['kind'] in ('nopix', 'nopixbad'):
+                f['iop'] = None
     return case
 
 
